@@ -51,11 +51,22 @@ def ref_base_ok(b, log):
 FOREIGN_OPERANDS = [3, 2.0, 0, "x", None, True, (1,), [1], object(), complex(0, 1), float("nan"), [], (),
                     [smx.Variable("y")], (smx.Variable("y"), smx.Variable("z")), [smx.Variable("y"), smx.Constant(2)],
                     {"x": smx.Variable("y")}, {smx.Variable("y")}, 0.0, -0.0, False, 1]
+def _library_non_expressions():
+    """Public objects of the library that are not expressions: points, derivative objects, classes, modules."""
+    e = smx.Multiply(smx.Variable("x"), smx.Variable("y"))
+    p = sm.Point(x=1, y=2)
+    return [p, sm.Point(), sm.Partial(e, "x"), sm.Partial(e, "x", compute_early=True), sm.Derivative(smx.Variable("x")),
+            sm.Differential(e), sm.Differential(e, compute_early=True), sm.LocatedDifferential(e, p),
+            smx.Variable, smx.Add, sm.Point, smx, sm]
+
+
+FOREIGN_OPERANDS += _library_non_expressions()
 NEAR_INTEGERS = [3.0000000000000004, 0.9999999999999999, 1.0000000000000002, 2.0000000000001, 1.9999999999999998,
                  4.000000000000001, 1e15 + 0.5, 0.1 * 3 * 10, 5.000000000001, 1e-300, 7 - 1e-12]
 EXPONENTS = list(range(-3, 7)) + [float(k) for k in range(-3, 7)] + NEAR_INTEGERS + [0.5, 1.5, 2.5, -0.5, 2.0000001, 1e-9,
              float("inf"), float("-inf"), float("nan"), 10 ** 6, 1e6, 64, 64.0, 2 ** 53 + 1, 2 ** 53, 10 ** 23, 10 ** 400, 3 ** 40,
-             "2", None, complex(2, 0), (2,), [2]]
+             "2", None, complex(2, 0), (2,), [2],
+             2.0 ** 53, 2.0 ** 53 + 2, 1e16, 1e22, 1e300, -1e16, 2.0 ** 53 - 1, 2.0 ** 52 + 0.5]
 
 
 def same_objects(expr, tag, operands):
@@ -207,18 +218,20 @@ def run_c15(tier, seed):
 
 # ================================================================ C16
 N_MENU = list(range(-3, 8)) + [float(k) for k in range(-3, 8)] + NEAR_INTEGERS + [0.5, 1.5, 2.5, -1.5, 1e-9, 0.999999, 3.0000001,
-          float("inf"), float("-inf"), float("nan"), 1e30, 10 ** 30, 2 ** 70, "2", "", None, (2,), [2], complex(2, 0), b"2"]
+          float("inf"), float("-inf"), float("nan"), 1e30, 10 ** 30, 2 ** 70, "2", "", None, (2,), [2], complex(2, 0), b"2",
+          2.0 ** 53, 2.0 ** 53 + 2, 1e16, 1e22, 1e300, 1 / 3, 0.75, 0.25, -0.5, 1 / 6, 1 / 9]
 BASE_MENU = [-2, -0.5, -1e-300, -5e-324, 0, 0.0, -0.0, 5e-324, 1e-300, 0.25, 0.5, 0.9999999999999999, 1, 1.0, 1.0000000000000002,
              1.0000001, 2, 2.0, 3, 10, math.e, math.pi, 1e300,
              "2", "", None, (2,), [2], complex(2, 0)]
-FOREIGN_ARGS = [3, 2.0, 0, "x", "Variable(\"x\")", None, True, (1,), [1], object(), complex(0, 1), float("nan"), type, b"x"]
+FOREIGN_ARGS = [3, 2.0, 0, "x", "Variable(\"x\")", None, True, (1,), [1], object(), complex(0, 1), float("nan"), type, b"x"] + _library_non_expressions()
 CONST_VALUES = [0, 1, -1, 2, 2.0, 0.5, -0.25, 1e-300, 1e300, 10 ** 20, -7, 3.141592653589793]
 
 
 def run_c16(tier, seed):
     run = Run("C16", tier, seed, "ARGS")
     st = Stats()
-    inner_terms = [x, C(2), Add(x, y), Neg(x)]
+    inner_terms = [x, C(2), Add(x, y), Neg(x), Mul(x, y), Minus(x, y), Div(x, y), Pow(x, y), Recip(x), Cos(x), Sin(x),
+                   NPow(x, 2), NPow(x, 3), Root(x, 2), Root(x, 3), Root(x, 4), Exp(x), Exp(x, 2), Log(x), Log(x, 2), Add(), Mul(x)]
     inners = [(t, A.build(t)) for t in inner_terms]
 
     def judge(label, ok, c, checks=None):
